@@ -31,6 +31,7 @@ type Gen struct {
 	openQueries                                       []int
 	customEvents                                      []int
 	dumpEnts                                          map[int][]int
+	lastRegs                                          []int
 
 	// statistics for the evidence file
 	Seqs        int            `json:"sequences"`
@@ -69,11 +70,12 @@ func profileOf(name string) profileCfg {
 		m["obs"] = 0
 	case "observers":
 		c.minObs, c.maxObs = 3, 8
-		m["obs"], m["otoggle"], m["emit"], m["set"], m["relbatch"], m["setrel"] = 4, 4, 3, 2, 3, 2
+		m["obs"], m["otoggle"], m["emit"], m["set"], m["relbatch"], m["setrel"], m["xchgb"], m["setrelb"] = 4, 4, 3, 2, 3, 2, 3, 2
 	case "relations":
 		m["setrel"], m["setrelb"], m["del"], m["delb"], m["shrink"] = 3, 3, 2, 2, 2
 	case "batch":
 		m["newb"], m["xchgb"], m["setrelb"], m["delb"] = 3, 4, 4, 3
+		c.minObs, c.maxObs = 1, 4
 	case "pool":
 		m["new"], m["del"], m["copy"], m["newb"], m["delb"], m["alive"], m["dumpload"] = 2, 3, 3, 3, 2, 5, 4
 		m["add"], m["rem"], m["xchg"], m["set"], m["setrel"] = 0.3, 0.3, 0.3, 0.3, 0.3
@@ -103,10 +105,10 @@ func profileOf(name string) profileCfg {
 		m["reset"], m["obs"], m["freg"], m["res"] = 12, 3, 3, 4
 		c.minObs, c.maxObs = 1, 5
 	case "dump":
-		m["dumpload"], m["del"], m["copy"], m["alive"] = 15, 3, 2, 4
+		m["dumpload"], m["del"], m["copy"], m["alive"], m["codec"] = 15, 3, 2, 4, 12
 	case "registry":
 		c.fullReg = true
-		m["res"], m["qopen"] = 8, 2
+		m["res"], m["qopen"], m["lockedreg"] = 8, 2, 10
 	case "stats":
 		m["stats"], m["shrink"], m["freg"], m["obs"] = 12, 2, 2, 2
 	case "tiny":
@@ -354,6 +356,7 @@ func (g *Gen) prelude() {
 		blocks[g.pick(nreg)] += n
 		rem -= n
 	}
+	g.lastRegs = append([]int(nil), order...)
 	for i, n := range order {
 		if blocks[i] > 0 {
 			g.emit(fmt.Sprintf("fill %d", blocks[i]))
@@ -1233,6 +1236,52 @@ func (g *Gen) opDumpLoad() bool {
 	return true
 }
 
+// opCodec: binary/JSON round trips on edge values, malformed lengths.
+func (g *Gen) opCodec() bool {
+	edge := []uint64{0, 1, 2, 255, 256, 65535, 1 << 16, 1<<31 - 1, 1 << 31, 1<<31 + 5, 1<<32 - 2, 1<<32 - 1}
+	pick := func() uint64 {
+		if g.chance(0.7) {
+			return edge[g.pick(len(edge))]
+		}
+		return uint64(g.rng.Uint32())
+	}
+	if g.chance(0.3) {
+		g.emit(fmt.Sprintf("codecbad %d", g.pick(17)))
+	} else {
+		g.emit(fmt.Sprintf("codec %d %d", pick(), pick()))
+	}
+	return true
+}
+
+// opLockedRegister: registering a new component type on a locked world must be rolled back
+// completely; afterwards the most recently registered types are used in new archetypes.
+func (g *Gen) opLockedRegister() bool {
+	if len(g.filterLabels) == 0 || len(g.h.comps)+g.h.fillers >= g.cfg.maxComps {
+		return false
+	}
+	q := g.nextQuery
+	g.nextQuery++
+	g.emit(fmt.Sprintf("qopen q%d f%d", q, g.filterLabels[g.pick(len(g.filterLabels))]))
+	if g.h.queries[q] == nil {
+		return true
+	}
+	g.emit("fill 1")
+	g.emit(fmt.Sprintf("qclose q%d", q))
+	// use the component registered last (and another one) in a new entity
+	if len(g.lastRegs) > 0 {
+		n := g.lastRegs[len(g.lastRegs)-1]
+		cs := []int{n}
+		if len(g.lastRegs) > 1 && g.chance(0.5) {
+			cs = append(cs, g.lastRegs[g.pick(len(g.lastRegs)-1)])
+		}
+		l := g.nextEnt
+		g.nextEnt++
+		g.ents = append(g.ents, l)
+		g.emit(fmt.Sprintf("new e%d u %s", l, g.compTokens(cs, true, 0.02, 0.0)))
+	}
+	return true
+}
+
 func (g *Gen) opRes() bool {
 	r := g.pick(3)
 	switch g.pick(3) {
@@ -1318,6 +1367,8 @@ func (g *Gen) Run(nseq, nops int) {
 				return g.opDumpLoad()
 			}},
 			{"res", 1, g.opRes},
+			{"codec", 1, g.opCodec},
+			{"lockedreg", 1, g.opLockedRegister},
 			{"relbatch", 2, g.opRelBatchNoFn},
 			{"typedwide", 1, g.opTypedWide},
 			{"twinq", 2, g.opTwinQueries},
